@@ -27,7 +27,7 @@ type C14Case struct {
 	Where *sq.E     `json:"where,omitempty"`
 	Items []C14Item `json:"items"`
 	Order []int     `json:"order"`          // release permutation over the gated calls (arrival index -> completion rank)
-	Tail  string    `json:"tail,omitempty"` // "" | distinct | orderby (ASYNC column under DISTINCT / as ORDER BY key)
+	Tail  string    `json:"tail,omitempty"` // "" | distinct | orderby (ASYNC column under DISTINCT / as ORDER BY key) | derived-distinct | derived-orderby (the calls sit in a derived table, the outer query de-duplicates / sorts) | nested | union-all
 	Imm   string    `json:"imm,omitempty"`  // immediate-function rejection case: the qualified call text
 	// Grouped: SELECT s AS rs, ONCE.<fn>('tag', <const>) AS o0, COUNT(a) AS n FROM t [WHERE] GROUP BY s [HAVING ONCE...]:
 	// one invocation for the whole query, the same value in every group
@@ -130,7 +130,7 @@ func genC14(t *rapid.T) any {
 		}
 	}
 	if hasAsyncCol && rapid.IntRange(0, 5).Draw(t, "tail") == 0 {
-		c.Tail = rapid.SampledFrom([]string{"distinct", "orderby"}).Draw(t, "tailkind")
+		c.Tail = rapid.SampledFrom([]string{"distinct", "orderby", "derived-distinct", "derived-orderby"}).Draw(t, "tailkind")
 	} else if rapid.IntRange(0, 6).Draw(t, "unionall") == 0 {
 		c.Tail = "union-all"
 	} else if rapid.IntRange(0, 5).Draw(t, "nested") == 0 {
@@ -195,6 +195,23 @@ func (c *C14Case) sql(qualified bool) string {
 	}
 	if c.Tail == "orderby" && firstAsync != "" {
 		s += " ORDER BY " + firstAsync + " DESC, ra, rs"
+	}
+	if strings.HasPrefix(c.Tail, "derived-") {
+		// the calls are made by a derived table; the outer query de-duplicates / sorts on their values
+		cols := []string{"d.ra AS ra", "d.rs AS rs"}
+		for _, it := range c.Items {
+			if it.Alias != "" && (qualified || (it.Q != "spin" && it.Q != "spinasync")) {
+				cols = append(cols, "d."+it.Alias+" AS "+it.Alias)
+			}
+		}
+		outer := "SELECT "
+		if c.Tail == "derived-distinct" {
+			outer = "SELECT DISTINCT "
+		}
+		s = outer + strings.Join(cols, ", ") + " FROM (" + s + ") d"
+		if c.Tail == "derived-orderby" && firstAsync != "" {
+			s += " ORDER BY " + firstAsync + " DESC, ra, rs"
+		}
 	}
 	if c.Tail == "union-all" {
 		// the query as the first arm of a UNION ALL whose second arm selects nothing and calls nothing
